@@ -2,6 +2,7 @@ package main
 
 import (
 	"bufio"
+	"errors"
 	"fmt"
 	"math"
 	"os"
@@ -16,6 +17,8 @@ import (
 	wal "github.com/hashicorp/raft-wal"
 	"github.com/hashicorp/raft-wal/fs"
 	"github.com/hashicorp/raft-wal/metadb"
+	"github.com/hashicorp/raft-wal/segment"
+	"github.com/hashicorp/raft-wal/types"
 )
 
 // fsdur suite (C07): the production fs/ and metadb/ packages under strace.
@@ -158,7 +161,100 @@ func fsdurWork(args []string) int {
 		w.Close()
 		marker("op-end ok")
 	}
+	// part 3: a process that dies (here: whose every fsync fails, then abandons the WAL) after the first batch was
+	// written into a newly created segment file but before any fsync of it succeeded — the file's directory entry
+	// has never been made durable. The next "process" (stock storage layer) recovers the CRC-valid batch from the
+	// page cache; its first acknowledged append must not return before the directory has been fsynced.
+	for variant := 0; variant < 2; variant++ {
+		wdir := filepath.Join(dir, fmt.Sprintf("walcrash%d", variant))
+		os.MkdirAll(wdir, 0o755)
+		fv := &failSyncVFS{VFS: fs.New()}
+		marker("op-begin open 4096")
+		w, err := wal.Open(wdir, wal.WithSegmentSize(4096), wal.WithLogger(hclog.NewNullLogger()), wal.WithSegmentFiler(segment.NewFiler(wdir, fv)))
+		marker("op-end ok")
+		if err != nil {
+			fmt.Println("RESULT open-err", err)
+			return 1
+		}
+		next := uint64(1)
+		store := func(label string, n, size int) error {
+			var logs []*raft.Log
+			for j := 0; j < n; j++ {
+				logs = append(logs, &raft.Log{Index: next + uint64(j), Term: 1, Data: r.Bytes(size)})
+			}
+			marker(fmt.Sprintf("op-begin %s %d %d", label, next, n))
+			err := w.StoreLogs(logs)
+			w.DeleteRange(math.MaxUint64, math.MaxUint64)
+			if err != nil {
+				marker("op-end err")
+			} else {
+				marker("op-end ok")
+				next += uint64(n)
+			}
+			return err
+		}
+		if variant == 1 {
+			// the never-synced file is the one a rotation created
+			store("store", 2, 1500)
+			store("store", 2, 1500)
+		}
+		fv.fail = true
+		if err := store("storefail", 2, 100); err == nil {
+			fmt.Println("RESULT storefail-unexpectedly-ok")
+		}
+		marker("op-begin reopen")
+		w.Close()
+		w, err = wal.Open(wdir, wal.WithSegmentSize(4096), wal.WithLogger(hclog.NewNullLogger()))
+		marker("op-end ok")
+		if err != nil {
+			fmt.Println("RESULT reopen-err", err)
+			return 1
+		}
+		if li, _ := w.LastIndex(); li >= next {
+			next = li + 1 // recovery accepted the batch whose fsync had failed
+		}
+		store("store", 1, 50)
+		store("store", 1, 50)
+		marker("op-begin close")
+		w.Close()
+		marker("op-end ok")
+	}
 	return 0
+}
+
+// failSyncVFS: the production VFS, except that once `fail` is set Sync on files it handed out returns an error
+// without reaching the file system (neither the file nor its directory is fsynced).
+type failSyncVFS struct {
+	types.VFS
+	fail bool
+}
+
+type failSyncFile struct {
+	types.WritableFile
+	v *failSyncVFS
+}
+
+func (f *failSyncFile) Sync() error {
+	if f.v.fail {
+		return errors.New("injected: fsync failed")
+	}
+	return f.WritableFile.Sync()
+}
+
+func (v *failSyncVFS) Create(dir, name string, size uint64) (types.WritableFile, error) {
+	f, err := v.VFS.Create(dir, name, size)
+	if err != nil {
+		return nil, err
+	}
+	return &failSyncFile{WritableFile: f, v: v}, nil
+}
+
+func (v *failSyncVFS) OpenWriter(dir, name string) (types.WritableFile, error) {
+	f, err := v.VFS.OpenWriter(dir, name)
+	if err != nil {
+		return nil, err
+	}
+	return &failSyncFile{WritableFile: f, v: v}, nil
 }
 
 func init() { extraCommands["fsdurwork"] = fsdurWork }
